@@ -133,18 +133,21 @@ namespace BitSerializer::Convert::Detail
 		// ReSharper disable once CppPossiblyErroneousEmptyStatements
 		for (; (startIt != endIt) && (*startIt == 0x20 || *startIt == 0x09); ++startIt) {}	// Skip spaces
 
+		// `std::isdigit()` is defined only for values representable as `unsigned char`, the input may be UTF-16/32
+		const auto isDigit = [](TSym sym) { return sym >= '0' && sym <= '9'; };
+
 		const auto size = endIt - startIt;
 		if (size >= 1)
 		{
-			if (std::isdigit(*startIt))
+			if (isDigit(*startIt))
 			{
-				if (*startIt == '1' && (size == 1 || !std::isdigit(startIt[1])))
+				if (*startIt == '1' && (size == 1 || !isDigit(startIt[1])))
 				{
 					ret_Val = true;
 					return;
 				}
 
-				if (*startIt == '0' && (size == 1 || !std::isdigit(startIt[1])))
+				if (*startIt == '0' && (size == 1 || !isDigit(startIt[1])))
 				{
 					ret_Val = false;
 					return;
